@@ -84,7 +84,9 @@ def targeted_case(g, j):
     return {"nodes": nodes, "ctx": ctx, "data": "NoData"}
 
 
-def check_case(run, case, detail, tz, scratch, digests):
+def check_case(run, case, detail, tz, scratch, digests, warmup_ctx=None):
+    """``warmup_ctx``: the SAME Pipeline object first processes a payload with this other context (traced), then the
+    measured run — what a SER says must be true of THIS run, whatever the object did before."""
     from vlib import account, refmodel as rm, tracecheck as tc
     from vlib.diffrun import node_kind
 
@@ -95,10 +97,19 @@ def check_case(run, case, detail, tz, scratch, digests):
         return None
     if m.dontcare or (not m.ok and m.fail_kind == "construction"):
         return None
+    pipe = None
+    if warmup_ctx is not None:
+        try:
+            pipe = account.build_pipeline(nodes)
+            w = tc.traced_run(nodes, data, warmup_ctx, detail=detail, mode="file", scratch=scratch, pipeline=pipe)
+            shutil.rmtree(w.tdir, ignore_errors=True)
+            run.count("runs_on_reused_pipeline_after_other_payload")
+        except Exception:
+            pipe = None
     boot.set_tz(tz)
     try:
         with account.NodeProbe() as probe:
-            tr = tc.traced_run(nodes, data, ctx, detail=detail, mode="file", scratch=scratch)
+            tr = tc.traced_run(nodes, data, ctx, detail=detail, mode="file", scratch=scratch, pipeline=pipe)
     finally:
         boot.set_tz("UTC")
     real = tr.real
@@ -252,8 +263,14 @@ def run(run):
             case = g.pipeline(max_len=7, fault_bias=0.25) if i % 5 else targeted_case(g, i // 5)
             details = [DETAILS[i % len(DETAILS)]] if run.tier == "quick" else DETAILS[:4]
             for detail in details:
-                for tz in TZS:
-                    m = check_case(run, case, detail, tz, scratch, digests)
+                for ti, tz in enumerate(TZS):
+                    warm = None
+                    if (i + ti) % 4 == 3:
+                        # other payload first: drop / add context keys named like defaulted parameters
+                        warm = {k: v for k, v in case["ctx"].items() if k not in ("factor", "addend", "scale", "k", "b", "tag")}
+                        if warm == case["ctx"]:
+                            warm = dict(case["ctx"], factor=7.5, addend=7.5, scale=7.5, k=7.5, b=7.5, tag="w")
+                    m = check_case(run, case, detail, tz, scratch, digests, warmup_ctx=warm)
                     if m is None:
                         continue
                     origins = [o[0] for nt in m.nodes for o in nt.origins.values()]
